@@ -209,6 +209,14 @@ def c03(tier):
     for nb, no in pairs:
         for gb, go in canon_patterns(nb, no):
             insts.append(m_inst(nb, no, gb=gb, go=go, timeout=600 if tier == "quick" else 1800))
+    if tier == "quick":
+        # bases of three entries that open a section (or the group-less part) a second time: the smallest shape in which
+        # the override can define a key that the base defines only in the later run
+        for gb in ("010", "101", "121"):
+            for go in ("0", "1", "2"):
+                insts.append(m_inst(3, 1, gb=gb, go=go))
+        for gb, go in (("010", "00"), ("010", "01"), ("101", "11"), ("101", "10"), ("121", "11"), ("121", "22"), ("121", "12")):
+            insts.append(m_inst(3, 2, gb=gb, go=go))
     for bc in (1, 2, 3):
         for go in ("00", "01", "11", "12"):
             insts.append(m_inst(0, 2, bc=bc, oc=0, gb="", go=go))
@@ -659,7 +667,7 @@ def wset_inst(hist, dl, cm):
     ends = [i + 1 for i, c in enumerate(text) if c == "\n"]
     d = {"STRCAP": 16, "VCAP": max(n + 2, 5), "VFS_CONTENT": 12 * n + 8, "VFS_MAXNODES": 3, "FMTCAP": 24, "HIST": '"%s"' % hist.replace(" ", ","), "NOPS": n, "DCH": "'%s'" % dl, "CCH": "'%s'" % cm,
          "WS_ENDS": "{%s}" % ",".join(str(e) for e in ends), "WS_NENDS": len(ends), "WS_LEN": len(text), "CONCRETE_VALUES": None}
-    uw = lib_unwinds(n + 1, 4, lines=3 * n + 3, alloc=9) + [(r"w_set\.c", r"i < NOPS|j < NOPS|g < 3", n + 2), (r"vfs_cbmc\.c", r"k < VFS_CONTENT", 12 * n + 10), (r"libeconf\.c", r"i < key_file->length", n + 1)]
+    uw = lib_unwinds(n + 1, 4, lines=3 * n + 3, alloc=9) + [(r"w_set\.c", r"i < NOPS|j < NOPS", n + 2), (r"w_set\.c", r"g < 3", 4), (r"vfs_cbmc\.c", r"k < VFS_CONTENT", 12 * n + 10), (r"libeconf\.c", r"i < key_file->length", n + 1)]
     inst = Instance("ws-%s-%s%s" % (hist.replace(" ", "_").replace(".", ""), {"=": "eq", ":": "col", " ": "sp"}[dl], {"#": "h", ";": "s"}[cm]), "w_set.c", d, unwind=17, unwindset=uw, timeout=400, mem_gb=8, leak_check=False,
                     functions="econf_newKeyFile, econf_setStringValue, econf_writeFile, econf_readFile, econf_getGroups, econf_getKeys, econf_getStringValue",
                     bounds="setter history %s (section.key per call, '-' group-less; repeated pairs overwrite), values: 2 concrete characters each (the writer's output layout depends on string lengths, which a symbolic character makes symbolic); delimiter %r comment %r" % (hist, dl, cm),
